@@ -96,6 +96,17 @@ class ReflectionPlugin:
             return (LibRef('copy'),)
         return None
 
+    def type_(self, it, ca):
+        if len(ca.args) == 3:
+            st = it.st
+            used(it, REFL + 'type(name, bases, namespace) creates a new class: a fresh opaque class value')
+            new = st.fresh_val('new_class')
+            st.assume(new != NONE)
+            st.assume(ISCLASS(new))
+            st.emit('new_class', name=ca.args[0], bases=ca.args[1], namespace=ca.args[2], cls=SymV(new))
+            return (SymV(new),)
+        return None
+
     def isinstance_symv(self, it, v, spec):
         name = spec.name.split('::')[-1].split('.')[-1]
         if name in MARK_KINDS:
